@@ -1,16 +1,26 @@
 ------------------------------ MODULE Retry ------------------------------
 (* Design spec of the request-retry mechanism of cflib.crazyflie.Crazyflie (C10):
-   send_packet (whole body under _send_lock, hence one action), the Timer threads
-   (wait elapsed -> TFire; send_packet(resend=True) -> TResend, a separate step so that the
-   dispatcher, close_link and re-open can interleave), _check_for_answers (longest matching
-   prefix), close_link, _link_error_cb, re-open.  Time in ms; Tick advances to the next deadline.
+   send_packet (application call: whole body under _send_lock, one action), the Timer threads
+   (wait elapsed -> TFire; send_packet(resend=True) is two steps under _send_lock:
+   TResendDecide = look at the link and at the pending patterns, re-arm; TResendTx = hand the
+   packet to the link object -- the thread parks in Timer.start() in between, and close_link,
+   _link_error_cb and open_link do not take _send_lock, so they interleave),
+   _check_for_answers (AnswerBegin = snapshot of the patterns, longest matching prefix, cancel;
+   AnswerEnd = delete the pattern: the dispatcher parks in Timer.cancel() in between),
+   close_link, _link_error_cb, re-open.  Time in ms; Tick advances to the next deadline.
 
    Bug (pre-fix behaviours, each must be refuted):
      "resendAfterAnswer"   a resend whose pattern is no longer pending is still transmitted
      "timersSurviveClose"  close_link forgets the patterns without cancelling their timers
      "defaultTimeout"      a retry is re-armed with the default 200 ms instead of its own timeout
      "stalePatterns"       _link_error_cb leaves the pending patterns behind
-     "noIdentity"          a resend only checks that *some* request is pending for its pattern     *)
+     "noIdentity"          a resend only checks that *some* request is pending for its pattern
+     "rereadLink"          send_packet reads self.link again for the transmission (a resend in
+                           flight across close/error + open lands in the next session; with the
+                           link gone the thread dies holding _send_lock)
+     "rereadPatterns"      _check_for_answers deletes the matched pattern from self._answer_patterns
+                           read again (after close + open + a new request for the same pattern it
+                           deletes the new request's entry: that request is never retried)        *)
 EXTENDS Naturals, Sequences, FiniteSets, TLC
 
 CONSTANTS Pats,        \* sequence of patterns (each a sequence of numbers)
@@ -28,41 +38,47 @@ VARIABLES link,        \* 0 = None, else the session number
           pending,     \* pattern id -> timer id | 0      (_answer_patterns)
           timers,      \* sequence of [st, dl, req, pat, sess, tmo]
           clock,
+          sendLock,    \* 0 = free, else the timer id whose thread holds _send_lock
+          chk,         \* dispatcher inside _check_for_answers: [on, pat, tm, gen] (pattern to delete)
+          gen,         \* identity of the _answer_patterns dictionary (close / link error start a new one)
           reqs, wire, ans,  \* history (RetryProps)
           n
 
-vars == <<link, nsess, pending, timers, clock, reqs, wire, ans, n>>
+vars == <<link, nsess, pending, timers, clock, sendLock, chk, gen, reqs, wire, ans, n>>
+NoChk == [on |-> FALSE, pat |-> 0, tm |-> 0, gen |-> 0]
 
 Init == /\ link = 1 /\ nsess = 1
         /\ pending = [p \in PatIds |-> NoTimer]
         /\ timers = <<>>
-        /\ clock = 0
+        /\ clock = 0 /\ sendLock = 0 /\ chk = NoChk /\ gen = 1
         /\ reqs = <<>> /\ wire = <<>> /\ ans = <<>> /\ n = 0
 
-Arm(req, p, sess, tmo) == [st |-> "armed", dl |-> clock + tmo, req |-> req, pat |-> p, sess |-> sess, tmo |-> tmo]
+Arm(req, p, sess, tmo) == [st |-> "armed", dl |-> clock + tmo, req |-> req, pat |-> p, sess |-> sess, tmo |-> tmo, lnk |-> 0, dn |-> 0]
 
 \* application sends a request with expected reply p (at most one outstanding per pattern)
 Send(p) ==
-    /\ link # 0 /\ pending[p] = NoTimer /\ Len(reqs) < MaxReqs
+    /\ link # 0 /\ pending[p] = NoTimer /\ Len(reqs) < MaxReqs /\ sendLock = 0
     /\ ~\E r \in DOMAIN reqs : reqs[r].pat = Pats[p] /\ reqs[r].sess = link
     /\ reqs' = Append(reqs, [n |-> n + 1, sess |-> link, pat |-> Pats[p], tmo |-> Tmo[p], t |-> clock])
-    /\ wire' = Append(wire, [n |-> n + 1, t |-> clock, sess |-> link, req |-> Len(reqs) + 1, first |-> TRUE])
+    /\ wire' = Append(wire, [n |-> n + 1, dn |-> n + 1, t |-> clock, sess |-> link, req |-> Len(reqs) + 1, first |-> TRUE])
     /\ n' = n + 1
     /\ IF Reliable THEN UNCHANGED <<pending, timers>>
        ELSE /\ Len(timers) < MaxTimers
             /\ timers' = Append(timers, Arm(Len(reqs) + 1, p, link, Tmo[p]))
             /\ pending' = [pending EXCEPT ![p] = Len(timers) + 1]
-    /\ UNCHANGED <<link, nsess, clock, ans>>
+    /\ UNCHANGED <<link, nsess, clock, sendLock, chk, gen, ans>>
 
 \* Timer thread: the wait elapsed and the timer was not cancelled
 TFire(i) ==
     /\ i \in DOMAIN timers /\ timers[i].st = "armed" /\ clock >= timers[i].dl
     /\ timers' = [timers EXCEPT ![i].st = "fired"]
-    /\ UNCHANGED <<link, nsess, pending, clock, reqs, wire, ans, n>>
+    /\ UNCHANGED <<link, nsess, pending, clock, sendLock, chk, gen, reqs, wire, ans, n>>
 
-\* Timer thread: _no_answer_do_retry -> send_packet(resend=True), body under _send_lock
-TResend(i) ==
-    /\ i \in DOMAIN timers /\ timers[i].st = "fired"
+\* Timer thread: _no_answer_do_retry -> send_packet(resend=True): _send_lock acquired, the link
+\* and the pending patterns looked at, the next timer armed; the thread then parks in
+\* Timer.start() still holding the lock
+TResendDecide(i) ==
+    /\ i \in DOMAIN timers /\ timers[i].st = "fired" /\ sendLock = 0
     /\ LET tm == timers[i]
            \* the request is still the one registered for its pattern (a later session may have
            \* registered the same pattern for a new request)
@@ -71,71 +87,109 @@ TResend(i) ==
            tmo == IF Bug = "defaultTimeout" THEN 200 ELSE tm.tmo
        IN
        IF link = 0
-       THEN /\ timers' = [timers EXCEPT ![i].st = "done"] /\ UNCHANGED <<pending, wire>>
+       THEN /\ timers' = [timers EXCEPT ![i].st = "done"] /\ UNCHANGED <<pending, sendLock>>
        ELSE IF stillPending
             THEN /\ Len(timers) < MaxTimers
-                 /\ timers' = Append([timers EXCEPT ![i].st = "done"], Arm(tm.req, tm.pat, tm.sess, tmo))
+                 /\ timers' = Append([timers EXCEPT ![i].st = "sending", ![i].lnk = link, ![i].dn = n + 1],
+                                     Arm(tm.req, tm.pat, tm.sess, tmo))
                  /\ pending' = [pending EXCEPT ![tm.pat] = Len(timers) + 1]
-                 /\ wire' = Append(wire, [n |-> n + 1, t |-> clock, sess |-> link, req |-> tm.req, first |-> FALSE])
-            ELSE /\ timers' = [timers EXCEPT ![i].st = "done"]
-                 /\ UNCHANGED pending
-                 /\ IF Bug = "resendAfterAnswer"
-                    THEN wire' = Append(wire, [n |-> n + 1, t |-> clock, sess |-> link, req |-> tm.req, first |-> FALSE])
-                    ELSE UNCHANGED wire
-    /\ n' = IF wire' # wire THEN n + 1 ELSE n
-    /\ UNCHANGED <<link, nsess, clock, reqs, ans>>
+                 /\ sendLock' = i
+            ELSE IF Bug = "resendAfterAnswer"
+                 THEN /\ timers' = [timers EXCEPT ![i].st = "sending", ![i].lnk = link, ![i].dn = n + 1]
+                      /\ sendLock' = i /\ UNCHANGED pending
+                 ELSE /\ timers' = [timers EXCEPT ![i].st = "done"]
+                      /\ UNCHANGED <<pending, sendLock>>
+    /\ n' = IF timers'[i].st = "sending" THEN n + 1 ELSE n
+    /\ UNCHANGED <<link, nsess, clock, chk, gen, reqs, wire, ans>>
+
+\* ... the packet is handed to the link object and the lock released.  A link object that has
+\* been closed in the meantime transmits nothing.
+TResendTx(i) ==
+    /\ i \in DOMAIN timers /\ timers[i].st = "sending" /\ sendLock = i
+    /\ LET tm == timers[i]
+           target == IF Bug = "rereadLink" THEN link ELSE tm.lnk
+       IN IF target = 0
+          THEN \* self.link is None by now: AttributeError, the thread dies holding the lock
+               /\ timers' = [timers EXCEPT ![i].st = "dead"]
+               /\ UNCHANGED <<sendLock, wire, n>>
+          ELSE /\ timers' = [timers EXCEPT ![i].st = "done"]
+               /\ sendLock' = 0
+               /\ IF target = link
+                  THEN /\ wire' = Append(wire, [n |-> n + 1, dn |-> tm.dn, t |-> clock, sess |-> target, req |-> tm.req, first |-> FALSE])
+                       /\ n' = n + 1
+                  ELSE UNCHANGED <<wire, n>>     \* old, closed link object: dropped
+    /\ UNCHANGED <<link, nsess, pending, clock, chk, gen, reqs, ans>>
 
 \* dispatcher: _check_for_answers on an incoming packet
 Matching(d) == {p \in PatIds : pending[p] # NoTimer /\ P!IsPrefix(Pats[p], d)}
-Answer(d) ==
-    /\ link # 0 /\ Len(ans) < MaxAns
-    /\ ans' = Append(ans, [n |-> n + 1, t |-> clock, sess |-> link, data |-> d])
+\* snapshot of the pending patterns, longest matching prefix, cancel() of its timer ...
+AnswerBegin(d) ==
+    /\ link # 0 /\ Len(ans) < MaxAns /\ ~chk.on
     /\ n' = n + 1
-    /\ IF Matching(d) = {} THEN UNCHANGED <<pending, timers>>
+    /\ IF Matching(d) = {}
+       THEN /\ ans' = Append(ans, [n |-> n + 1, ne |-> n + 1, t |-> clock, sess |-> link, data |-> d])
+            /\ UNCHANGED <<timers, chk>>
        ELSE LET p == CHOOSE p \in Matching(d) : \A q \in Matching(d) : Len(Pats[q]) <= Len(Pats[p])
                 i == pending[p]
-            IN /\ pending' = [pending EXCEPT ![p] = NoTimer]
+            IN /\ ans' = Append(ans, [n |-> n + 1, ne |-> 0, t |-> clock, sess |-> link, data |-> d])
+               /\ chk' = [on |-> TRUE, pat |-> p, tm |-> i, gen |-> gen]
                /\ timers' = [timers EXCEPT ![i].st = IF @ = "armed" THEN "cancelled" ELSE @]
-    /\ UNCHANGED <<link, nsess, clock, reqs, wire>>
+    /\ UNCHANGED <<link, nsess, pending, clock, sendLock, gen, reqs, wire>>
+\* ... and `del self._answer_patterns[longest_match]` (whatever is registered there by now; after
+\* a close/error the dictionary is a new one and the deletion raises KeyError in the dispatcher's
+\* try/except, which changes nothing)
+AnswerEnd ==
+    /\ chk.on
+    /\ chk' = NoChk
+    /\ pending' = IF chk.gen = gen \/ Bug = "rereadPatterns"
+                  THEN [pending EXCEPT ![chk.pat] = NoTimer]
+                  ELSE pending           \* deleted from the old dictionary
+    /\ ans' = [ans EXCEPT ![Len(ans)].ne = n + 1]
+    /\ n' = n + 1
+    /\ UNCHANGED <<link, nsess, timers, clock, sendLock, gen, reqs, wire>>
 
 CancelAll == [i \in DOMAIN timers |->
                  IF timers[i].st = "armed" /\ \E p \in PatIds : pending[p] = i
                  THEN [timers[i] EXCEPT !.st = "cancelled"] ELSE timers[i]]
 
-Close ==   \* close_link, and _link_error_cb (which closes the driver and forgets the link)
-    /\ link # 0
+Close ==   \* close_link: first a zero setpoint through send_packet (needs _send_lock), then the teardown
+    /\ link # 0 /\ sendLock = 0
     /\ link' = 0
     /\ pending' = [p \in PatIds |-> NoTimer]
     /\ timers' = IF Bug = "timersSurviveClose" THEN timers ELSE CancelAll
-    /\ UNCHANGED <<nsess, clock, reqs, wire, ans, n>>
+    /\ gen' = gen + 1
+    /\ UNCHANGED <<nsess, clock, sendLock, chk, reqs, wire, ans, n>>
 
 \* _link_error_cb: the driver is closed and forgotten; Bug "stalePatterns" = the pre-fix behaviour
 \* that leaves the pending patterns (and their timers) in place
 LinkErr ==
     /\ link # 0
     /\ link' = 0
-    /\ IF Bug = "stalePatterns" THEN UNCHANGED <<pending, timers>>
-       ELSE /\ pending' = [p \in PatIds |-> NoTimer] /\ timers' = CancelAll
-    /\ UNCHANGED <<nsess, clock, reqs, wire, ans, n>>
+    /\ IF Bug = "stalePatterns" THEN UNCHANGED <<pending, timers, gen>>
+       ELSE /\ pending' = [p \in PatIds |-> NoTimer] /\ timers' = CancelAll /\ gen' = gen + 1
+    /\ UNCHANGED <<nsess, clock, sendLock, chk, reqs, wire, ans, n>>
 
 Reopen ==
     /\ link = 0 /\ nsess < MaxSess
     /\ link' = nsess + 1 /\ nsess' = nsess + 1
-    /\ UNCHANGED <<pending, timers, clock, reqs, wire, ans, n>>
+    /\ UNCHANGED <<pending, timers, clock, sendLock, chk, gen, reqs, wire, ans, n>>
 
 \* time passes: to the next pending deadline, or to any later instant up to MaxTime.  A thread may
 \* be arbitrarily slow, so Tick is enabled even while a timer has fired but not yet resent.
 Tick(t) ==
     /\ t > clock /\ t <= MaxTime
+    /\ sendLock = 0      \* the critical section of send_packet takes no time (Interval is about timers, not jitter)
     /\ \A i \in DOMAIN timers : timers[i].st = "armed" => t <= timers[i].dl \/ clock >= timers[i].dl
     /\ clock' = t
-    /\ UNCHANGED <<link, nsess, pending, timers, reqs, wire, ans, n>>
+    /\ UNCHANGED <<link, nsess, pending, timers, sendLock, chk, gen, reqs, wire, ans, n>>
 
 Times == {200, 300, 400, 500, 600}
 Next == \/ \E p \in PatIds : Send(p)
         \/ \E i \in 1..MaxTimers : TFire(i)
-        \/ \E i \in 1..MaxTimers : TResend(i)
-        \/ \E d \in Packets : Answer(d)
+        \/ \E i \in 1..MaxTimers : TResendDecide(i)
+        \/ \E i \in 1..MaxTimers : TResendTx(i)
+        \/ \E d \in Packets : AnswerBegin(d)
+        \/ AnswerEnd
         \/ Close \/ LinkErr \/ Reopen
         \/ \E t \in Times : Tick(t)
 
@@ -146,16 +200,27 @@ NoClosedLinkTx == P!NoClosedLinkTx(wire)
 NoCrossSession == P!NoCrossSession(wire, reqs)
 NoRetryWhenReliable == P!NoRetryWhenReliable(wire, Reliable)
 Interval == P!Interval(wire, reqs)
-\* no retransmission after the answer was received (positions in the global event order)
+\* no retransmission is decided after the answer has been processed (positions in the global
+\* event order: dn = where send_packet(resend) took its decision, ne = where _check_for_answers
+\* finished; a resend already under way when the answer arrives still goes out)
+AnsEnd(a) == LET c == {k \in DOMAIN ans : ans[k].n = a} IN ans[CHOOSE k \in c : TRUE].ne
 NoRetryAfterAnswer ==
     \A i \in DOMAIN wire : ~wire[i].first =>
-        LET a == P!AnsweredAt(reqs, ans, wire[i].req) IN a = 0 \/ wire[i].n < a
+        LET a == P!AnsweredAt(reqs, ans, wire[i].req)
+        IN a = 0 \/ AnsEnd(a) = 0 \/ wire[i].dn < AnsEnd(a)
 \* the retry chain of a pending request is alive: exactly one live timer serves it
 ChainAlive == \A p \in PatIds : pending[p] # NoTimer =>
-                 /\ timers[pending[p]].st \in {"armed", "fired"}
+                 /\ \/ timers[pending[p]].st \in {"armed", "fired"}
+                    \/ (chk.on /\ chk.pat = p)        \* being answered: cancelled, about to be deleted
                  /\ timers[pending[p]].pat = p
 \* an incoming packet cancels only its longest matching pending pattern: a pattern that is
 \* pending, unanswered and whose link is open keeps exactly one live timer
+\* an unanswered request of the open session keeps a live timer (its retry chain is not lost)
+ChainKept == Reliable \/ \A r \in DOMAIN reqs :
+                (reqs[r].sess = link /\ P!AnsweredAt(reqs, ans, r) = 0) =>
+                    \E i \in DOMAIN timers : timers[i].req = r /\ timers[i].st \in {"armed", "fired", "sending"}
+\* _send_lock is only ever held by a thread that is about to release it
+NoLockLeak == sendLock # 0 => timers[sendLock].st = "sending"
 NoOrphans == \A i, j \in DOMAIN timers :
                 (i # j /\ timers[i].st \in {"armed", "fired"} /\ timers[j].st \in {"armed", "fired"}
                  /\ timers[i].sess = timers[j].sess) => timers[i].pat # timers[j].pat
